@@ -42,7 +42,7 @@ def functions():
 def mk(N, kinds, chunks=(-1, 1, 2), twice=False):
     def setup(e):
         spec = SC.gen_graph(e, N, kinds, sym_leaf=False)
-        want, shape = SC.gen_request(e, N)
+        want, shape = SC.gen_request(e, N, allow_empty=False, shapes=(0, 1, 2))
         fails = {}
         tasks = [j for j in range(N) if spec[j]["kind"] not in ("data", "alias")]
         if tasks and e.flag("anyfail"):
